@@ -194,10 +194,21 @@ def interp(c, p):
         return interp(c, p[1]).transpose(left=bool(p[2]))
     if op == FUNCTOR:
         d = interp(c, p[3])
-        ob = {c.ty([[n, 0]]): c.ty(t) for n, t in p[1]}
-        ar = {c.box(b): interp(c, img) for b, img in p[2]}
-        return c.Functor(ob, ar)(d)
+        return make_functor(c, p[1], p[2])(d)
     raise AssertionError("bad opcode %r" % (op,))
+
+
+CALLABLE_FUNCTORS = False
+
+
+def make_functor(c, obs, ars):
+    """The functor of a FUNCTOR program: mappings given as dicts or, when
+    CALLABLE_FUNCTORS is set, as plain callables."""
+    ob = {c.ty([[n, 0]]): c.ty(t) for n, t in obs}
+    ar = {c.box(b): interp(c, img) for b, img in ars}
+    if CALLABLE_FUNCTORS:
+        return c.Functor(lambda x: ob[x], lambda f: ar[f])
+    return c.Functor(ob, ar)
 
 
 def bounded(normalizer):
